@@ -31,6 +31,10 @@ def binop(I, op, a, b, w, signed):
             tname = 'S' + base      # arithmetic shift / signed division / signed order are different functions
         term = T.op(tname, w, a.term, b.term)
     if base in ('Eq', 'Ne', 'Lt', 'Le', 'Gt', 'Ge'):
+        if term is not None and term[0] != 'c' and not signed and not a.signed and not b.signed and w >= 32:
+            r = _cmp_relational(base, a, b, w)
+            if r is not None:
+                return r, FALSE
         return _cmp(base, a, b, signed, term), FALSE
     if base == 'Cmp':
         raise NotImplementedError
@@ -39,6 +43,12 @@ def binop(I, op, a, b, w, signed):
         return _const_binop(base, ca, cb, w, signed, a, b, term)
     if signed:
         return _signed_binop(base, a, b, w, term)
+    if term is not None and term[0] == 'c' and base == 'Sub' and not a.signed and not b.signed and w >= 32:
+        # the operands differ by a constant (linear normal form): the wrapped difference is that constant, and it
+        # overflows exactly when a < b
+        lt = _cmp_relational('Lt', a, b, w)
+        if lt is not None:
+            return cint(w, term[2]), lt
     if b.signed and b.lo < 0:
         b = topint(b.w)
     if base == 'Add':
@@ -257,6 +267,21 @@ def _const_binop(base, ca, cb, w, signed, a, b, term):
     r &= m
     rr = cint(w, r, signed)
     return (rr.with_term(term) if term is not None else rr), ovf
+
+
+def _cmp_relational(op, a, b, w):
+    """decide an unsigned comparison of two values whose terms differ by a constant (a == b + d mod 2^w) when the
+    interval of one of them shows that adding the (signed reading of the) constant cannot wrap"""
+    d = T.op('Sub', w, a.term, b.term)
+    if d is None or d[0] != 'c':
+        return None
+    ds = d[2] - (1 << w) if d[2] >> (w - 1) else d[2]
+    m = M(w)
+    exact = (0 <= b.lo + ds and b.hi + ds <= m) or (0 <= a.lo - ds and a.hi - ds <= m)
+    if not exact:
+        return None
+    res = {'Eq': ds == 0, 'Ne': ds != 0, 'Lt': ds < 0, 'Le': ds <= 0, 'Gt': ds > 0, 'Ge': ds >= 0}[op]
+    return TRUE if res else FALSE
 
 
 def _cmp(op, a, b, signed, term):
